@@ -24,7 +24,7 @@ Scan(f, seed, red, term) == [op |-> "scan", f |-> f, seed |-> seed, reduce |-> r
 SeqOps ==
     {[op |-> "first"], [op |-> "last"], [op |-> "to_list"], [op |-> "identity"]}
     \cup {[op |-> "take", n |-> n] : n \in 0..3}
-    \cup {[op |-> "lag", n |-> n] : n \in 1..3}
+    \cup {[op |-> "lag", n |-> n] : n \in 0..3}
     \cup {[op |-> "batch", n |-> n] : n \in 1..3}
     \cup {[op |-> "distinct", f |-> Fn("id", 0)], [op |-> "duc", f |-> Fn("id", 0)]}
     \cup {[op |-> "pad_start", n |-> n, v |-> v] : n \in 0..2, v \in {None, IntV(9)}}
@@ -55,7 +55,7 @@ PartOps ==
 TsOps ==
     {[op |-> "time_split", tm |-> Fn("fst", 0), active |-> a, inactive |-> i,
       closing |-> c, incl |-> inc] :
-        a \in {-1, 2, 3}, i \in {-1, 1, 2}, c \in {NoFn, Fn("sndTrue", 0)}, inc \in BOOLEAN}
+        a \in {-1, 0, 2, 3}, i \in {-1, 0, 1, 2}, c \in {NoFn, Fn("sndTrue", 0)}, inc \in BOOLEAN}
 
 OpSet == CASE Family = "seq"  -> SeqOps
            [] Family = "int"  -> IntOps
